@@ -75,7 +75,9 @@ func normPod(p *corev1.Pod) *corev1.Pod {
 	}
 	c := p.DeepCopy()
 	pr := c.Spec.Affinity.NodeAffinity.PreferredDuringSchedulingIgnoredDuringExecution
-	key := func(t corev1.PreferredSchedulingTerm) string { return fmt.Sprintf("%010d|%s", 1<<30-int(t.Weight), world.Digest(t)) }
+	key := func(t corev1.PreferredSchedulingTerm) string {
+		return fmt.Sprintf("%010d|%s", 1<<30-int(t.Weight), world.Digest(t))
+	}
 	sort.SliceStable(pr, func(i, j int) bool { return key(pr[i]) < key(pr[j]) })
 	return c
 }
@@ -186,6 +188,15 @@ func (s *sim) runSimulate(st Step) error {
 	return nil
 }
 
+// frameCall: static drift runs no scheduling simulation; its ComputeCommands RESERVES static capacity in
+// Cluster.NodePoolState (the C03 protocol) - a deliberate mutation the frame of a simulation does not cover.
+func frameCall(method string) string {
+	if method == "staticdrift" {
+		return "method-reserving"
+	}
+	return "method"
+}
+
 func orDashS(s string) string {
 	if s == "" {
 		return "-"
@@ -220,12 +231,14 @@ func (s *sim) runPass() error {
 }
 
 // frameDecoratePod applies PodSpec.Ext (scheduling-relevant extras the C07 alphabet does not need):
-//   hostPort=<n>            container host port
-//   preferZone=<zone>       preferred node affinity (weight 10) — relaxed when it cannot be honoured
-//   requireZone=<zone>      required node affinity
-//   antiAffinity=<app>      required pod anti-affinity (hostname) against pods labelled app=<app>
-//   spreadZone=<app>        ScheduleAnyway zonal topology spread over pods labelled app=<app>
-//   pvc=<claim>             mounts PersistentVolumeClaim <claim> (objects created by frameBuildStorage)
+//
+//	hostPort=<n>            container host port
+//	preferZone=<zone>       preferred node affinity (weight 10) — relaxed when it cannot be honoured
+//	requireZone=<zone>      required node affinity
+//	antiAffinity=<app>      required pod anti-affinity (hostname) against pods labelled app=<app>
+//	spreadZone=<app>        ScheduleAnyway zonal topology spread over pods labelled app=<app>
+//	badSelector=<x>         nodeSelector on a restricted karpenter.sh label (an invalid pending pod)
+//	pvc=<claim>             mounts PersistentVolumeClaim <claim> (objects created by frameBuildStorage)
 func (s *sim) frameDecoratePod(pod *corev1.Pod, p *PodSpec) {
 	for k, v := range p.Ext {
 		switch k {
@@ -257,6 +270,11 @@ func (s *sim) frameDecoratePod(pod *corev1.Pod, p *PodSpec) {
 		case "spreadZone":
 			pod.Spec.TopologySpreadConstraints = append(pod.Spec.TopologySpreadConstraints, corev1.TopologySpreadConstraint{MaxSkew: 1,
 				TopologyKey: corev1.LabelTopologyZone, WhenUnsatisfiable: corev1.ScheduleAnyway, LabelSelector: &metav1.LabelSelector{MatchLabels: map[string]string{"app": v}}})
+		case "badSelector": // a node selector on a label Karpenter restricts: the pod fails Provisioner.Validate and is ignored
+			if pod.Spec.NodeSelector == nil {
+				pod.Spec.NodeSelector = map[string]string{}
+			}
+			pod.Spec.NodeSelector["karpenter.sh/custom-"+v] = v
 		case "pvc":
 			pod.Spec.Volumes = append(pod.Spec.Volumes, corev1.Volume{Name: "v-" + v, VolumeSource: corev1.VolumeSource{
 				PersistentVolumeClaim: &corev1.PersistentVolumeClaimVolumeSource{ClaimName: v}}})
